@@ -359,3 +359,21 @@ func explorePaths(c *core.Ctx, what string, prog *hast.Program, scripts []string
 		}
 	}
 }
+
+// shapeFeatures records two program shapes of the flow generator in the evidence.
+func shapeFeatures(c *core.Ctx, prog *hast.Program) {
+	seen := map[string]bool{}
+	dup := false
+	for i, n := range prog.Nodes {
+		if seen[n.Title] {
+			dup = true
+		}
+		seen[n.Title] = true
+		if i > 0 && n.Title == "Start" && prog.Nodes[0].Title != "Start" {
+			c.Feature("program-whose-Start-node-is-not-first")
+		}
+	}
+	if dup {
+		c.Feature("program-with-a-title-defined-twice")
+	}
+}
